@@ -113,6 +113,7 @@ structure St where
   wroteAs : List (Nat × Nat) := []   -- (call, wire id under which its request was registered)
   handed : List Nat := []         -- every call ever passed to QueueRPC
   unsendable : List Nat := []     -- calls whose request could not be marshalled (completed locally)
+  poison : List Nat := []         -- batchable calls whose request cannot be marshalled
   dropped : List Nat := []        -- calls given up because their own context had ended
   deriving Repr
 
@@ -125,6 +126,7 @@ inductive Act where
   | queueBatched (c : Nat)        -- QueueRPC of a batchable call (rpcQueueSize > 1)
   | queueDirect (c : Nat)         -- QueueRPC of an unbatched call (SkipBatch, scan, …)
   | queueUnsendable (c : Nat)     -- QueueRPC of an unbatched call whose request fails to marshal
+  | queueBatchedUnsendable (c : Nat)  -- QueueRPC of a batchable call whose request fails to marshal
   | queueDirectClosing (c : Nat)  -- QueueRPC of an unbatched call during whose serialisation (after the
                                   -- liveness check, before it is registered) the connection is closed
   | cancel (c : Nat)              -- the call's context ends
@@ -204,18 +206,30 @@ def startSend (s : St) (w : Who) (it : Item) : St :=
   if mHeld s1 then { s1 with mWait := s1.mWait ++ [.sender w] } else senderAdd s1 w
 
 /-- The batching goroutine's loop once it is not inside trySend: exit when `done`; otherwise take
-queued calls (up to queueSize), drop those whose context has ended (toProto) and send the multi. -/
-def writerLoop (s : St) : St :=
-  if s.writerExited || s.writerBusy then s
-  else if s.done then { s with writerExited := true }
-  else match s.offered with
-    | [] => s
-    | _ =>
-      let batch := s.offered.take s.queueSize
-      let live := batch.filter (fun c => !s.ctxDone.contains c)
-      let s1 := { s with offered := s.offered.drop s.queueSize, writerBusy := true,
-                         dropped := s.dropped ++ batch.filter (fun c => s.ctxDone.contains c) }
-      startSend s1 .writer (.multi live)
+queued calls (up to queueSize), drop those whose context has ended (toProto) and send the multi.
+A multi containing a call whose request cannot be marshalled is not sent at all: `send` registers
+it (the id is consumed), `marshalProto` fails, `trySend` unregisters it and returns the error,
+`flush` completes every call of the multi with that error (`m.returnResults(nil, err)`) and the
+loop goes on with the next batch (`fuel` bounds that iteration: each round removes queued calls). -/
+def writerLoopN : Nat → St → St
+  | 0, s => s
+  | fuel + 1, s =>
+    if s.writerExited || s.writerBusy then s
+    else if s.done then { s with writerExited := true }
+    else match s.offered with
+      | [] => s
+      | _ =>
+        let batch := s.offered.take s.queueSize
+        let live := batch.filter (fun c => !s.ctxDone.contains c)
+        let s1 := { s with offered := s.offered.drop s.queueSize,
+                           dropped := s.dropped ++ batch.filter (fun c => s.ctxDone.contains c) }
+        if live.any (fun c => s.poison.contains c) then
+          writerLoopN fuel
+            { s1 with nextId := s1.nextId + 1, unsendable := s1.unsendable ++ live,
+                      delivered := s1.delivered ++ live.map (fun c => Dlv.mk c .fatal none) }
+        else startSend { s1 with writerBusy := true } .writer (.multi live)
+
+def writerLoop (s : St) : St := writerLoopN (s.offered.length + 1) s
 
 /-- A send is over (successfully or not): forget it and let the writer continue its loop if it
 was the writer's. -/
@@ -300,6 +314,12 @@ def step (s : St) : Act → Option St
       none
     else if s.done then some { s with delivered := s.delivered ++ [Dlv.mk c .connErr none] }
     else some (writerLoop { s with offered := s.offered ++ [c] })
+  | .queueBatchedUnsendable c =>
+    if s.handed.contains c then none else
+    let s := { s with handed := s.handed ++ [c] }
+    if s.ctxDone.contains c then none
+    else if s.done then some { s with delivered := s.delivered ++ [Dlv.mk c .connErr none] }
+    else some (writerLoop { s with offered := s.offered ++ [c], poison := s.poison ++ [c] })
   | .queueDirect c =>
     if s.handed.contains c then none else
     let s := { s with handed := s.handed ++ [c] }
